@@ -50,21 +50,22 @@ type Replay struct {
 
 // WorkerResult is written by each worker process.
 type WorkerResult struct {
-	Property     string           `json:"property"`
-	World        string           `json:"world"`
-	Runs         int64            `json:"runs"`
-	Steps        uint64           `json:"steps"`
-	Switches     uint64           `json:"switches"`
-	Preemptions  uint64           `json:"preemptions"`
-	SimSeconds   float64          `json:"sim_seconds"`
-	WallSeconds  float64          `json:"wall_seconds"`
-	Inconclusive map[string]int64 `json:"inconclusive"`
-	Probes       map[string]int64 `json:"probes"`
-	Hashes       []string         `json:"nontrivial_hashes"`
-	Violations   []Replay         `json:"violations"`
-	Errors       []string         `json:"errors"`
-	Samples      []Sample         `json:"samples"`
-	Leaked       int              `json:"leaked_goroutines"`
+	Property     string            `json:"property"`
+	World        string            `json:"world"`
+	Runs         int64             `json:"runs"`
+	Steps        uint64            `json:"steps"`
+	Switches     uint64            `json:"switches"`
+	Preemptions  uint64            `json:"preemptions"`
+	SimSeconds   float64           `json:"sim_seconds"`
+	WallSeconds  float64           `json:"wall_seconds"`
+	Inconclusive map[string]int64  `json:"inconclusive"`
+	Probes       map[string]int64  `json:"probes"`
+	Hashes       []string          `json:"nontrivial_hashes"`
+	Violations   []Replay          `json:"violations"`
+	Errors       []string          `json:"errors"`
+	Samples      []Sample          `json:"samples"`
+	Leaked       int               `json:"leaked_goroutines"`
+	RunHashes    map[string]string `json:"run_hashes,omitempty"`
 }
 
 type Sample struct {
@@ -232,6 +233,12 @@ func Main(t *testing.T, w *World) {
 		}
 		res := w.exec(t, prop, ch, mean, randSeed, keep)
 		wr.Runs++
+		if os.Getenv("VERIF_HASHLIST") != "" {
+			if wr.RunHashes == nil {
+				wr.RunHashes = map[string]string{}
+			}
+			wr.RunHashes[strconv.FormatInt(i, 10)] = fmt.Sprintf("%016x/%d/%v", res.LogHash, res.Steps, res.Violation != nil)
+		}
 		wr.Steps += res.Steps
 		wr.Switches += res.Switches
 		wr.Preemptions += res.Preemptions
@@ -364,6 +371,9 @@ func (w *World) minimise(t *testing.T, prop string, rep *Replay) {
 	// trim trailing zeros
 	for len(cur) > 0 && cur[len(cur)-1] == 0 {
 		cur = cur[:len(cur)-1]
+	}
+	if cur == nil {
+		cur = []uint32{}
 	}
 	rep.Choices = cur
 	rep.Minimised = true
